@@ -306,3 +306,326 @@ Proof.
   destruct (leaf_part_keys cs n Hk) as (p & l & Hin').
   pose proof (nodup_fst_functional cs n _ _ Hnd Hin Hin') as E. subst s. discriminate.
 Qed.
+
+(* ------------------------------------------------------------------ finish: a class *)
+Lemma int_entries_nil F : (forall k, In k (map fst F) -> py_int k = None) -> int_entries F = [].
+Proof.
+  induction F as [|[k m] F IH]; intros H; [reflexivity|]. cbn [int_entries].
+  rewrite (H k) by (left; reflexivity). apply IH. intros k' Hk'. apply H. right. exact Hk'.
+Qed.
+
+Lemma default_of_fields_map F :
+  default_of_fields F = map (fun f : str * model => (fst f, snd (snd f))) F.
+Proof. induction F as [|[k [t d]] F IH]; [reflexivity|]. cbn. rewrite IH. reflexivity. Qed.
+
+Lemma finish_rec F : (forall k, In k (map fst F) -> py_int k = None) -> finish F = Ok (rec_model F).
+Proof.
+  intros H. unfold finish. rewrite (int_entries_nil F H). cbn [rev].
+  rewrite default_of_fields_map. reflexivity.
+Qed.
+
+Lemma leaf_first_keys {T} (l : list (str * bool * T)) k :
+  In k (map fst (leaf_first l)) -> In k (map (fun x => fst (fst x)) l).
+Proof.
+  unfold leaf_first. rewrite map_app, in_app_iff, !map_map. cbn [fst].
+  intros [H|H]; apply in_map_iff in H; destruct H as (x & <- & Hx); apply filter_In in Hx;
+    apply in_map_iff; exists x; tauto.
+Qed.
+
+(* ------------------------------------------------------------------ finish: an index-spread list *)
+Fixpoint zfrom {T} (z : Z) (ms : list T) : list (Z * T) :=
+  match ms with
+  | [] => []
+  | m :: r => (z, m) :: zfrom (z + 1)%Z r
+  end.
+
+Lemma int_entries_numbered (g : sty -> model) i es :
+  int_entries (map (fun nt : str * sty => (fst nt, g (snd nt))) (numbered i es))
+  = zfrom (Z.of_N i - 1)%Z (map g es).
+Proof.
+  revert i. induction es as [|e r IH]; intros i; [reflexivity|].
+  cbn [numbered map int_entries fst snd zfrom]. rewrite py_int_str_of_N. f_equal.
+  rewrite IH. f_equal. lia.
+Qed.
+
+Lemma filter_all {A} (f : A -> bool) l : forallb f l = true -> filter f l = l.
+Proof.
+  induction l as [|x l IH]; cbn; [reflexivity|]. rewrite andb_true_iff. intros [Hx Hl].
+  rewrite Hx, (IH Hl). reflexivity.
+Qed.
+
+Lemma filter_none {A} (f : A -> bool) l : forallb (fun x => negb (f x)) l = true -> filter f l = [].
+Proof.
+  induction l as [|x l IH]; cbn; [reflexivity|]. rewrite andb_true_iff. intros [Hx Hl].
+  apply negb_true_iff in Hx. rewrite Hx. apply IH, Hl.
+Qed.
+
+Lemma forallb_ext' {A} (f g : A -> bool) l : (forall x, f x = g x) -> forallb f l = forallb g l.
+Proof. intros H. induction l as [|x l IH]; cbn; [reflexivity|]. rewrite H, IH. reflexivity. Qed.
+
+Lemma leaf_first_homog {T} (l : list (str * bool * T)) :
+  forallb (fun x => snd (fst x)) l = true \/ forallb (fun x => negb (snd (fst x))) l = true ->
+  leaf_first l = map (fun x => (fst (fst x), snd x)) l.
+Proof.
+  unfold leaf_first. intros [H|H].
+  - rewrite (filter_all _ l H). rewrite (filter_none (fun x => negb (snd (fst x))) l).
+    + apply app_nil_r.
+    + rewrite <- H. apply forallb_ext'. intros x. apply negb_involutive.
+  - rewrite (filter_none _ l H). rewrite (filter_all _ l H). reflexivity.
+Qed.
+
+Lemma forallb_map' {A B} (f : B -> bool) (g : A -> B) l : forallb f (map g l) = forallb (fun x => f (g x)) l.
+Proof. induction l as [|x l IH]; cbn; [reflexivity|]. rewrite IH. reflexivity. Qed.
+
+Lemma spread_leaf_first i es :
+  forallb is_leafb es = true \/ forallb (fun e => negb (is_leafb e)) es = true ->
+  leaf_first (map (fun nt : str * sty => (fst nt, is_leafb (snd nt), denote_sty (snd nt))) (numbered i es))
+  = map (fun nt : str * sty => (fst nt, denote_sty (snd nt))) (numbered i es).
+Proof.
+  intros H. rewrite leaf_first_homog.
+  - rewrite map_map. reflexivity.
+  - rewrite !forallb_map'. cbn [fst snd]. destruct H as [H|H]; [left|right]; revert i;
+      induction es as [|e r IH]; intros i; try reflexivity; cbn [numbered forallb snd] in *;
+      apply andb_prop in H; destruct H as [He Hr]; rewrite He; cbn [andb]; apply IH, Hr.
+Qed.
+
+Lemma last_zfrom {T} (ms : list T) z z0 m0 : snd (last (zfrom z ms) (z0, m0)) = last ms m0.
+Proof.
+  revert z. induction ms as [|m r IH]; intros z; [reflexivity|].
+  destruct r as [|m' r']; [reflexivity|].
+  change (zfrom z (m :: m' :: r')) with ((z, m) :: zfrom (z + 1)%Z (m' :: r')).
+  change (last ((z, m) :: zfrom (z + 1)%Z (m' :: r')) (z0, m0))
+    with (last (zfrom (z + 1)%Z (m' :: r')) (z0, m0)).
+  rewrite IH. reflexivity.
+Qed.
+
+Lemma rev_head_last {A} (l : list A) a r d : rev l = a :: r -> last l d = a.
+Proof.
+  intros H. apply (f_equal (@rev A)) in H. rewrite rev_involutive in H. subst l.
+  cbn [rev]. apply last_last.
+Qed.
+
+Lemma zoset_new {V} (D : list (Z * V)) k v : ~ In k (map fst D) -> oset Z.eqb D k v = D ++ [(k, v)].
+Proof.
+  induction D as [|[k' v'] D IH]; cbn; [reflexivity|]. intros H.
+  destruct (Z.eqb k' k) eqn:E; [apply Z.eqb_eq in E; tauto|]. rewrite IH by tauto. reflexivity.
+Qed.
+
+Lemma fold_defaults ms : forall z (D : list (Z * dv)),
+  (forall k, In k (map fst D) -> (k < z)%Z) ->
+  fold_left (fun d (e : Z * model) => oset Z.eqb d (fst e) (snd (snd e))) (zfrom z ms) D
+  = D ++ zfrom z (map snd ms).
+Proof.
+  induction ms as [|m r IH]; intros z D HD; cbn [zfrom map fold_left]; [rewrite app_nil_r; reflexivity|].
+  cbn [fst snd]. rewrite zoset_new by (intros Hin; specialize (HD z Hin); lia).
+  rewrite IH; [rewrite <- app_assoc; reflexivity|].
+  intros k Hk. rewrite map_app, in_app_iff in Hk. destruct Hk as [Hk|[Hk|[]]].
+  - specialize (HD k Hk). lia.
+  - cbn in Hk. lia.
+Qed.
+
+Lemma max_fold_zfrom (r : list dv) : forall z k, k = (z - 1)%Z ->
+  fold_left (fun m (kv : Z * dv) => Z.max m (fst kv)) (zfrom z r) k = (z - 1 + Z.of_nat (length r))%Z.
+Proof.
+  induction r as [|d r IH]; intros z k Hk; cbn [zfrom fold_left length fst]; [lia|].
+  rewrite (IH (z + 1)%Z); lia.
+Qed.
+
+Lemma set_nth_app {T} (pre : list T) x rest v : set_nth (length pre) (pre ++ x :: rest) v = pre ++ v :: rest.
+Proof. induction pre as [|a pre IH]; cbn; [reflexivity|]. rewrite IH. reflexivity. Qed.
+
+Lemma setitems ds : forall pre,
+  foldM (fun out (kv : Z * dv) => py_setitem out (fst kv) (snd kv))
+        (zfrom (Z.of_nat (length pre)) ds) (pre ++ repeat VNone (length ds))
+  = Ok (pre ++ ds).
+Proof.
+  induction ds as [|d r IH]; intros pre; cbn [zfrom foldM length repeat fst snd]; [reflexivity|].
+  unfold py_setitem. rewrite app_length. cbn [length].
+  destruct (Z.of_nat (length pre) <? 0)%Z eqn:E1; [lia|].
+  destruct ((Z.of_nat (length pre) <? 0)%Z || (Z.of_nat (length pre + S (length (repeat VNone (length r)))) <=? Z.of_nat (length pre))%Z) eqn:E2; [lia|].
+  rewrite Nat2Z.id, set_nth_app.
+  replace (Z.of_nat (length pre) + 1)%Z with (Z.of_nat (length (pre ++ [d]))) by (rewrite app_length; cbn [length]; lia).
+  replace (pre ++ d :: repeat VNone (length r)) with ((pre ++ [d]) ++ repeat VNone (length r))
+    by (rewrite <- app_assoc; reflexivity).
+  rewrite IH. rewrite <- app_assoc. reflexivity.
+Qed.
+
+Lemma dict_to_list_zfrom ds : ds <> [] -> dict_to_list (zfrom 0%Z ds) = Ok ds.
+Proof.
+  destruct ds as [|d r]; [congruence|]. intros _. unfold dict_to_list.
+  cbn [zfrom max_key]. rewrite (max_fold_zfrom r (0 + 1)%Z 0%Z) by lia.
+  replace (Z.to_nat (0 + 1 - 1 + Z.of_nat (length r) + 1)) with (length (d :: r)) by (cbn [length]; lia).
+  exact (setitems (d :: r) []).
+Qed.
+
+Lemma finish_list F ms :
+  ms <> [] -> int_entries F = zfrom 0%Z ms ->
+  finish F = Ok (TList (fst (last ms (TStr, VNone))), VList (map snd ms)).
+Proof.
+  intros Hne HF. unfold finish. rewrite HF.
+  destruct (rev (zfrom 0%Z ms)) as [|[z [t d]] r] eqn:E.
+  - apply (f_equal (@rev (Z * model))) in E. rewrite rev_involutive in E. cbn in E.
+    destruct ms; [congruence|discriminate].
+  - pose proof (rev_head_last _ _ _ (0%Z, (TStr, VNone)) E) as HL.
+    apply (f_equal snd) in HL. rewrite last_zfrom in HL. cbn [snd] in HL.
+    match goal with
+    | |- context [fold_left ?g (zfrom 0%Z ms) []] =>
+      replace (fold_left g (zfrom 0%Z ms) []) with (zfrom 0%Z (map snd ms))
+        by (symmetry; apply (fold_defaults ms 0%Z []); intros k [])
+    end.
+    rewrite dict_to_list_zfrom by (destruct ms; [congruence|discriminate]).
+    unfold model in *. rewrite HL. reflexivity.
+Qed.
+
+(* ------------------------------------------------------------------ fuel: sub-headers are shorter *)
+Lemma max_len_app a b : max_len (a ++ b) = Nat.max (max_len a) (max_len b).
+Proof.
+  induction a as [|h a IH]; [reflexivity|]. cbn [app]. unfold max_len in *. cbn [fold_right].
+  rewrite IH. lia.
+Qed.
+
+Lemma max_len_prefixed n hs : hs <> [] -> (max_len hs < max_len (map (prefix_field n) hs))%nat.
+Proof.
+  induction hs as [|h hs IH]; [congruence|]. intros _. unfold max_len in *. cbn [map fold_right].
+  unfold prefix_field at 1. rewrite app_length. cbn [length].
+  destruct hs as [|h' r]; [cbn; lia|]. specialize (IH ltac:(discriminate)). lia.
+Qed.
+
+Lemma max_len_child cs n s :
+  In (n, s) cs -> is_leafb s = false -> subs s <> [] ->
+  (max_len (subs s) < max_len (headers_of_fields cs))%nat.
+Proof.
+  intros Hin Hl Hne. induction cs as [|[n' s'] cs IH]; [destruct Hin|].
+  rewrite headers_of_fields_cons, max_len_app. destruct Hin as [E|Hin].
+  - inversion E; subst. rewrite headers_of_field_dotted by exact Hl.
+    pose proof (max_len_prefixed n (subs s) Hne). lia.
+  - specialize (IH Hin). lia.
+Qed.
+
+(* ------------------------------------------------------------------ the children of an index-spread list *)
+Lemma is_digit_not_sep c : sep_plain c = true -> is_digit c = false.
+Proof.
+  unfold sep_plain. destruct (is_digit c); [|reflexivity].
+  destruct (is_ws c); cbn [andb negb]; discriminate.
+Qed.
+
+Lemma str_of_N_name_ok i : name_ok (str_of_N i) = true.
+Proof.
+  unfold name_ok, no_seps.
+  rewrite !digits_no_char by
+    (first [apply str_of_N_digit_chars
+           |apply is_digit_not_sep, hdr_plain|apply is_digit_not_sep, ann_plain|apply is_digit_not_sep, dflt_plain]).
+  cbn [andb]. apply nows_stripped, str_of_N_nows.
+Qed.
+
+Lemma numbered_child_ok i es : forallb wf_sty es = true -> Forall child_ok (numbered i es).
+Proof.
+  revert i. induction es as [|e r IH]; intros i H; [constructor|]. cbn [forallb] in H.
+  apply andb_prop in H. destruct H as [He Hr]. cbn [numbered]. constructor; [|apply IH, Hr].
+  split; [apply str_of_N_name_ok|exact He].
+Qed.
+
+Lemma numbered_keys {T} i (es : list T) k : In k (map fst (numbered i es)) -> exists j, i <= j /\ k = str_of_N j.
+Proof.
+  revert i. induction es as [|e r IH]; intros i; cbn; [tauto|]. intros [<-|H].
+  - exists i. split; [lia|reflexivity].
+  - destruct (IH (i + 1) H) as (j & Hj & ->). exists j. split; [lia|reflexivity].
+Qed.
+
+Lemma numbered_nodup {T} i (es : list T) : NoDup (map fst (numbered i es)).
+Proof.
+  revert i. induction es as [|e r IH]; intros i; cbn; constructor; [|apply IH].
+  intros H. destruct (numbered_keys _ _ _ H) as (j & Hj & E). apply str_of_N_inj in E. lia.
+Qed.
+
+Lemma numbered_in {T} i (es : list T) nt : In nt (numbered i es) -> In (snd nt) es.
+Proof.
+  revert i. induction es as [|e r IH]; intros i; cbn; [tauto|].
+  intros [<-|H]; [left; reflexivity|right; apply (IH _ H)].
+Qed.
+
+Lemma map_snd_numbered {T U} (g : T -> U) i (es : list T) :
+  map (fun nt : str * T => g (snd nt)) (numbered i es) = map g es.
+Proof. revert i. induction es as [|e r IH]; intros i; cbn; [reflexivity|]. rewrite IH. reflexivity. Qed.
+
+(* ------------------------------------------------------------------ the main induction *)
+Lemma field_name_ok_name n : field_name_ok n = true -> name_ok n = true.
+Proof. unfold field_name_ok. intros H. apply andb_prop in H. tauto. Qed.
+
+Lemma field_name_ok_noint n : field_name_ok n = true -> py_int n = None.
+Proof.
+  unfold field_name_ok. intros H. apply andb_prop in H. destruct H as [_ H].
+  destruct (py_int n); [discriminate|reflexivity].
+Qed.
+
+Lemma fields_child_ok (fs : list (str * sty)) :
+  forallb (fun nt : str * sty => field_name_ok (fst nt)) fs = true ->
+  forallb (fun nt : str * sty => wf_sty (snd nt)) fs = true ->
+  Forall child_ok fs.
+Proof.
+  rewrite !forallb_forall. intros H1 H2. apply Forall_forall. intros nt Hin.
+  split; [apply field_name_ok_name, H1, Hin|apply H2, Hin].
+Qed.
+
+(* a record level: named children, none of which looks like an integer *)
+Lemma infer_rec_fields f (fs : list (str * sty)) :
+  forallb (fun nt : str * sty => field_name_ok (fst nt)) fs = true ->
+  nodup_names (map fst fs) = true ->
+  forallb (fun nt : str * sty => wf_sty (snd nt)) fs = true ->
+  (forall nt, In nt fs -> is_leafb (snd nt) = false -> infer_rec f (subs (snd nt)) = Ok (denote_sty (snd nt))) ->
+  infer_rec (S f) (headers_of_fields fs) = Ok (denote_sty (SRec fs)).
+Proof.
+  intros Hn Hd Hw Hrec.
+  rewrite infer_rec_level; [|apply fields_child_ok; assumption|apply nodup_names_NoDup, Hd|exact Hrec].
+  cbn [denote_sty]. apply finish_rec. intros k Hk. apply leaf_first_keys in Hk.
+  rewrite map_map in Hk. cbn [fst] in Hk. apply in_map_iff in Hk. destruct Hk as (nt & <- & Hin).
+  apply field_name_ok_noint. rewrite forallb_forall in Hn. apply Hn, Hin.
+Qed.
+
+Lemma infer_rec_subs s :
+  wf_sty s = true -> is_leafb s = false ->
+  forall fuel, (max_len (subs s) < fuel)%nat -> infer_rec fuel (subs s) = Ok (denote_sty s).
+Proof.
+  induction s as [p l|es IH|fs IH] using sty_ind'; intros Hwf Hl fuel Hfuel; [discriminate| |].
+  - (* f.1 f.2 ... *)
+    destruct fuel as [|f]; [lia|]. cbn [wf_sty] in Hwf.
+    apply andb_prop in Hwf. destruct Hwf as [Hwf Hall]. apply andb_prop in Hwf. destruct Hwf as [Hne Hhom].
+    unfold subs in *. cbn [children] in *.
+    rewrite infer_rec_level; [|apply numbered_child_ok, Hall|apply numbered_nodup|].
+    + rewrite spread_leaf_first by (apply orb_prop, Hhom).
+      cbn [denote_sty]. erewrite finish_list.
+      * reflexivity.
+      * destruct es; [discriminate|discriminate].
+      * rewrite (int_entries_numbered denote_sty 1 es). reflexivity.
+    + intros nt Hin Hlnt. pose proof (numbered_in _ _ _ Hin) as Hine.
+      rewrite Forall_forall in IH. rewrite forallb_forall in Hall.
+      apply (IH _ Hine (Hall _ Hine) Hlnt).
+      assert (Hlt : (max_len (subs (snd nt)) < max_len (headers_of_fields (numbered 1 es)))%nat).
+      { destruct nt as [n s]. apply (max_len_child _ n s Hin Hlnt).
+        apply subs_nonempty; [apply (Hall _ Hine)|exact Hlnt]. }
+      unfold subs in Hlt. lia.
+  - (* f.a f.b ... *)
+    destruct fuel as [|f]; [lia|]. cbn [wf_sty] in Hwf.
+    apply andb_prop in Hwf. destruct Hwf as [Hwf Hall]. apply andb_prop in Hwf. destruct Hwf as [Hwf Hnd].
+    apply andb_prop in Hwf. destruct Hwf as [Hne Hnames].
+    unfold subs in *. cbn [children] in *.
+    apply infer_rec_fields; try assumption.
+    intros nt Hin Hlnt. rewrite Forall_forall in IH. rewrite forallb_forall in Hall.
+    apply (IH _ Hin (Hall _ Hin) Hlnt).
+    assert (Hlt : (max_len (subs (snd nt)) < max_len (headers_of_fields fs))%nat).
+    { destruct nt as [n s]. apply (max_len_child _ n s Hin Hlnt).
+      apply subs_nonempty; [apply (Hall _ Hin)|exact Hlnt]. }
+    unfold subs in Hlt. lia.
+Qed.
+
+(* ------------------------------------------------------------------ the headline theorem *)
+Theorem infer_headers_of sc : wf_schema sc = true -> infer (headers_of sc) = Ok (denote sc).
+Proof.
+  intros Hwf. unfold wf_schema in Hwf.
+  apply andb_prop in Hwf. destruct Hwf as [Hwf Hall]. apply andb_prop in Hwf. destruct Hwf as [Hnames Hnd].
+  unfold infer, headers_of, denote. apply infer_rec_fields; try assumption.
+  intros [n s] Hin Hl. cbn [snd] in *. rewrite forallb_forall in Hall.
+  pose proof (Hall _ Hin) as Hws. cbn [snd] in Hws.
+  apply infer_rec_subs; [exact Hws|exact Hl|].
+  apply (max_len_child sc n s Hin Hl). apply subs_nonempty; assumption.
+Qed.
